@@ -37,11 +37,20 @@ impl Grouped {
         len: usize,
         dict: Arc<Dictionary>,
     ) -> Result<Grouped> {
+        Grouped::decode_nested(reader, len, dict, 1)
+    }
+
+    pub(crate) fn decode_nested<R: Read + Seek>(
+        reader: &mut R,
+        len: usize,
+        dict: Arc<Dictionary>,
+        depth: usize,
+    ) -> Result<Grouped> {
         let mut avps = Vec::new();
 
         let mut offset = 0;
         while offset < len {
-            let avp = Avp::decode_from(reader, Arc::clone(&dict))?;
+            let avp = Avp::decode_nested(reader, Arc::clone(&dict), depth)?;
             offset += avp.get_length() as usize;
             offset += avp.get_padding() as usize;
             avps.push(avp);
